@@ -88,6 +88,8 @@ def cases(rng, tier, shard, nshards):
             pts, meta = gen.curve(rng, nmax=3000, nmin=600)
         elif tier == 'thorough' and r < 0.06:
             pts, meta = gen.curve(rng, nmax=500, nmin=80)
+        elif r > 0.985:
+            pts, meta = gen.curve(rng, nmax=600, nmin=150)     # deep recursions also in the quick tier
         else:
             pts, meta = gen.curve(rng, nmax=80, nmin=3)
         det = pick(rng, DETECTORS)
@@ -106,12 +108,23 @@ def cases(rng, tier, shard, nshards):
                 v = float(mods['linear_fit'].smape_points(sub, mods['linear_fit'].linear_fit_points(sub)))
             if np.isfinite(v) and v > 0:
                 t1 = v
-        yield {'points': pts, 'family': meta['family'], 'layout': lay, 'detector': det,
-               't1': t1, 't2': T2MIN[det] + int(rng.integers(0, 3))}
+        c = {'points': pts, 'family': meta['family'], 'layout': lay, 'detector': det,
+             't1': t1, 't2': T2MIN[det] + int(rng.integers(0, 3))}
+        if rng.random() < 0.25 and len(pts) <= 120:     # history: another detector / thresholds on the SAME array
+            d2 = pick(rng, DETECTORS)
+            c['follow'] = {'detector': d2, 't1': float(10.0 ** rng.uniform(-4, -1)), 't2': T2MIN[d2] + int(rng.integers(0, 3))}
+        yield c
 
 
 def run_case(ctx, mods, case):
     pts = gen.present(case['points'], case['layout'])
+    run_step(ctx, mods, case, pts)
+    if case.get('follow'):
+        ctx.h('history', 'second detector on the same array')
+        run_step(ctx, mods, dict(case['follow'], points=case['points'], family=case['family']), pts)
+
+
+def run_step(ctx, mods, case, pts):
     det = case['detector']
     LAST.clear()
     ok, res = install.guarded(ctx, f'complete:{det}.multi_knee', mods[det].multi_knee, pts, case['t1'], case['t2'])
